@@ -36,11 +36,22 @@ def generate(ctx):
         ilen = rng.randint(1, 4)
         for qi in range(rng.randint(2, 4) if equalw else rng.randint(1, 3)):
             if equalw:
-                a = rng.randint(1, L - 2)
-                cig = [("M", a), ("I", ilen), ("M", L - a)] if rng.random() < 0.8 else [("M", L)]
+                a = rng.randint(1, L - 2) if rng.random() < 0.85 else 0     # a = 0: insertion before the first reference base (ins:0:n)
+                cig = ([("M", a)] if a else []) + [("I", ilen), ("M", L - a)] if rng.random() < 0.8 else [("M", L)]
                 q = [{"name": "q%d" % qi, "flag": 0, "pos": 0, "cigar": cig, "seq": ""}]
             else:
                 q = samgen.make_query_topa(rng, genome, "q%d" % qi)
+                if rng.random() < 0.2:        # first record starts at POS 1 with an insertion (after any clips)
+                    r0 = q[0]
+                    k = 0
+                    while k < len(r0["cigar"]) and r0["cigar"][k][0] in "HS":
+                        k += 1
+                    if k < len(r0["cigar"]) and r0["cigar"][k][0] != "I":
+                        r0["cigar"] = r0["cigar"][:k] + [("I", rng.randint(1, 3))] + r0["cigar"][k:]
+                    r0["pos"] = 0
+                    span = samgen.ref_span(r0["cigar"])
+                    if span > L:
+                        r0["cigar"] = r0["cigar"][:k + 1] + [("M", L)]
             # sam variants is specified on ordinary aligner output: keep N (skipped region) and P out of the CIGARs here
             for r in q:
                 r["cigar"] = [(o, l) for o, l in r["cigar"] if o not in "NP"] or [("M", 1)]
